@@ -110,7 +110,7 @@ def document(cls, units, variant, numdepth=3):
             if i == k - 1:
                 s += '\n\n\\index{gamma}\\index{alpha}\n\n'       # index entries that form a paragraph of their own
                 # a label spelled like a generated identifier; link targets inside an argument of a childless element
-                s += ' \\begin{enumerate}\\item\\label{a2} p\\item q\\end{enumerate} \\ref{a2} \\ref{lt1}'
+                s += ' \\begin{enumerate}\\item\\label{a2} p\\item\\label{a3} q\\item\\label{a5} r\\item\\label{a8} s\\item\\label{a13} t\\end{enumerate} \\ref{a2} \\ref{a5} \\ref{lt1}'
                 s += ' \\begin{description}\\item[T\\index{delta}]\\item[\\label{lt1}U] u\\end{description} m\\marginpar{n\\index{eps}}'
                 # initials that transliterate to two letters, next to entries of the same letter group
                 s += ' \\index{\\AE ther}\\index{abacus}\\index{afar}\\index{\\OE uvre}\\index{omega}\\index{3D}'
